@@ -348,3 +348,39 @@ def rule_quota(cx, rule):
             rule.violation('process_join|quota-405', 'ERR_TOOMANYCHANNELS is not sent exactly when the configured quota is exhausted', loc=fn)
     elif not cmp_atoms:
         rule.violation('process_join|quota-comparison', 'max_joins is never compared with the number of joined channels', loc=fn)
+
+
+def rule_join_relative(cx, rule):
+    """membership view of JOIN, relative to the handler's own decision (shared: C04 R4.7): whenever the joiner is entered into
+       the membership (user side), the JOIN is echoed to the joiner and announced to the members, and never otherwise.
+       Whether the decision itself is the right one is C07's business, not decided here."""
+    prog = cx.prog
+    fn = cx.fn('process_join')
+    w = cx.walk(fn, args=[SELF, CONN, CH_PARAM, KEYS], key='c07')
+    ins = [e for e, x in effects(w, prog) if x['op'] == 'insert' and x['place'] == field(ME, 'channels') and x['args'][:1] == [C]]
+    rule.instance('JOIN: user-side membership inserts: %d' % len(ins))
+    if not ins:
+        rule.violation('process_join|relative|no-insert', 'JOIN never enters the joiner into its channel set', loc=fn)
+        return
+    joined = Or(*[e.pc for e in ins])
+    k = ('elem', ('keys', field(CH, 'users')))
+    ann = [(e, s) for e, s in sends(w) if s['to'] == user(k)]
+    rule.instance('JOIN: announcement to the members <=> membership entered')
+    if not ann:
+        rule.violation('process_join|relative|no-announcement', 'a JOIN is not announced over the channel member map', loc=fn)
+    for e, s in ann:
+        f2 = e.pc
+        for a in atoms(e.pc):
+            if a[0] == 'eq' and k in a[1:]:
+                f2 = subst(f2, a, False)
+            elif a == ('is', ('get', field(CH, 'users'), k), 'Some') or a == ('is', ('get', USERS, k), 'Some'):
+                f2 = subst(f2, a, True)
+        ok, m = equivalent(f2, joined)
+        if not ok:
+            rule.violation('process_join|relative|announcement', 'the JOIN announcement and the membership change do not happen under the same '
+                           'condition: members see a roster that differs from the real one (%s)' % (m,), loc=cx.loc(e.node))
+    echo = [(e, r) for e, r in replies(w) if r['source'] is not None]
+    rule.instance('JOIN: echo to the joiner <=> membership entered')
+    if not echo or not equivalent(Or(*[e.pc for e, _ in echo]), joined)[0]:
+        rule.violation('process_join|relative|echo', 'the JOIN echo to the joiner and the membership change do not happen under the same '
+                       'condition', loc=cx.loc(echo[0][0].node) if echo else fn)
